@@ -83,6 +83,7 @@ def run(ch, idx, tier):
 
     violations = []
     history = []
+    trace = hashlib.sha256()
 
     def violate(cls, site, detail):
         if not any(v["cls"] == cls and v["site"] == site for v in violations):
@@ -231,10 +232,11 @@ def run(ch, idx, tier):
                 continue
             compared += 1
             bump("evaluations")
+            trace.update(np.asarray(s.vals, dtype=float).tobytes())
             if not (_close(s.vals, ref.vals) and _close(s.tvec, ref.tvec)):
                 which = "default" if (oa is None or pa is None) else "explicit"
                 violate("answer_depends_on_other_requests", f"PlotData.__init__[{which} aggregation]", {"series": [s.pop, s.output], "shared": np.asarray(s.vals)[:4].tolist(), "isolated": np.asarray(ref.vals)[:4].tolist(), "units": [s.units, ref.units], "call": call})
-            elif s.units != ref.units:
+            elif s.units != ref.units and not (isinstance(s.units, float) and isinstance(ref.units, float) and np.isnan(s.units) and np.isnan(ref.units)):
                 violate("reported_units_depend_on_other_requests", "PlotData.__init__", {"series": [s.pop, s.output], "units": [s.units, ref.units], "call": call})
         # ---- arithmetic on the isolated answers (parts) --------------------------------------------
         if not kw:
@@ -487,4 +489,5 @@ def run(ch, idx, tier):
         "nontrivial": bool(compared >= 1 and invariant_checks >= 2),
         "sample": {"project": name, "programs": use_progs, "history": history, "answers_compared": compared, "violations": [v["cls"] for v in violations]},
         "oplog": history,
+        "trace": trace.hexdigest(),
     }
